@@ -132,6 +132,17 @@ def ledger_monitor(ctx, tr, ix):
                     if paid:
                         ghost += paid
                         ctx.stats["dividends_paid"] += 1
+                    # the receivable booked this morning: every dividend row whose record date was yesterday, on yesterday's closing holding
+                    rows_b = [r for r in S["div"].get(oid, []) if r[1] == ix.prev_day8(today8)]
+                    h1 = next((x for x in a1["holdings"] if x["id"] == oid), None)
+                    if rows_b and q0 and h1 is not None and not h["long"]["div"] and all(r[3] > today8 for r in rows_b):
+                        want_recv = q0 * sum(r[4] / r[5] for r in rows_b)
+                        got_recv = h1["long"]["div"][1] if h1["long"]["div"] else 0.0
+                        ctx.stats["receivables_checked" + ("_multi_row" if len(rows_b) > 1 else "")] += 1
+                        if abs(got_recv - want_recv) > 1e-9 * scale(want_recv):
+                            ctx.witness("C01.1", {"kind": "dividend_receivable_amount", "rows": min(len(rows_b), 2)},
+                                        "%s on %s: %d dividend row(s) with record date %s pay %r per share in total on %s shares = %r, receivable booked %r"
+                                        % (oid, today8, len(rows_b), rows_b[0][1], sum(r[4] / r[5] for r in rows_b), q0, want_recv, got_recv), replay)
                     for ex, ratio in S["split"].get(oid, []):
                         if ex == today8 * 1000000 and qty[oid]:
                             from decimal import Decimal, getcontext
@@ -161,7 +172,10 @@ def ledger_monitor(ctx, tr, ix):
                     s = ix.stock.get(h["id"])
                     if s is not None and s["delisted"] is not None and nxt8 >= B.d8(s["delisted"]) and h["long"]["qty"]:
                         if h["id"] in S["trf"]:
-                            ghost = a1["total_cash"] + sum(x for _, x in a1["pending"])     # conversion: C12
+                            # conversion: q x ratio successor shares at avg/ratio each, paid for by handing in the holding: no cash moves
+                            t = S["trf"][h["id"]]
+                            qty[t["successor"]] += h["long"]["qty"] * t["share_conversion_ratio"]
+                            ctx.stats["share_conversions"] += 1
                         elif am.get("cash_return_by_stock_delisted", True):
                             ghost += h["long"]["qty"] * h["long"]["last"]
                             ctx.stats["delisting_payouts"] += 1
@@ -184,9 +198,15 @@ def one_run(ctx, corrs, stock_only=False, dense=False, rs=None, k=None):
     rs = ctx.rnd.random() if rs is None else rs
     rnd = random.Random(rs)
     S = B.gen_market(rnd, ndays=rnd.randrange(10, 26), with_future=False if stock_only else None,
-                     opts={"p_div": 0.8, "p_split": 0.5, "p_delist": 0.35} if dense else None)
+                     opts={"p_div": 0.8, "p_split": 0.5, "p_delist": 0.7 if (k is not None and k % 4 == 1) else 0.35, "p_special_div": 0.35} if dense else None)
     if not S["stocks"]:
         return
+    if dense and k is not None and k % 4 == 1 and len(S["stocks"]) >= 2:
+        # share conversion at delisting, with ratios that do not give whole successor shares
+        dl = [s for s in S["stocks"] if s["delisted"] is not None]
+        others = [s for s in S["stocks"] if s["delisted"] is None]
+        if dl and others:
+            S["trf"][dl[0]["id"]] = {"successor": others[0]["id"], "share_conversion_ratio": rnd.choice([0.5, 1.0, 2.0, 0.3276, 1.37])}
     cfgk = trading.gen_config(rnd, S, {"p_init_pos": 0.2})
     tr = trading.run_trading(rnd, S, cfgk)
     tr.run_seed, tr.run_index = rs, k
